@@ -424,6 +424,7 @@ type DAGOpts struct {
 	ManifestSHA bool // only sha256 for manifests (registries, oci index)
 	UniqueBytes bool // every blob has distinct bytes
 	Wide        bool // manifests with many layers (contended permits)
+	FewBytes    bool // blobs drawn from three byte strings only (aliases under several media types)
 	EmbMeta     bool // index children may carry annotations / artifactType on the embedding descriptor
 }
 
@@ -482,6 +483,11 @@ func Specs(t *rapid.T, o DAGOpts) []NodeSpec {
 			if rapid.IntRange(0, 4).Draw(t, label+"TitleDir") == 0 {
 				s.Title = fmt.Sprintf("d%d/f%d.bin", titleN%2, titleN)
 			}
+		}
+		if o.FewBytes {
+			s.Seed = 0
+			s.Size = rapid.IntRange(0, 2).Draw(t, label+"FewSize")
+			s.Alg = ""
 		}
 		if o.UniqueBytes {
 			s.Seed = 100 + len(specs)
